@@ -9,4 +9,306 @@ import TopSearch.Lemmas.Merge
 namespace TopSearch.Pipeline
 open TopSearch TopSearch.Ktn TopSearch.Merge
 
+variable {δ : Type}
+
+/-! ### look-up of edges and nodes -/
+
+theorem edgeData?_comm (s : Ktn δ) (a b : Nat) : s.edgeData? a b = s.edgeData? b a := by
+  unfold edgeData?
+  have : (fun e : Edge δ => Edge.joins e a b) = (fun e => Edge.joins e b a) := by
+    funext e; exact joins_comm e a b
+  rw [this]
+
+theorem nodeData?_empty (a : Nat) : (empty : Ktn δ).nodeData? a = none := rfl
+
+theorem edgeData?_empty (a b : Nat) : (empty : Ktn δ).edgeData? a b = none := rfl
+
+theorem nodeData?_reset (s : Ktn δ) (a : Nat) : s.reset.nodeData? a = none := rfl
+
+theorem edgeData?_reset (s : Ktn δ) (a b : Nat) : s.reset.edgeData? a b = none := rfl
+
+theorem mem_of_edgeData {s : Ktn δ} {a b : Nat} {y : δ} (h : s.edgeData? a b = some y) :
+    ∃ e ∈ s.edges, Edge.joins e a b = true ∧ e.data = y := by
+  simp only [edgeData?, Option.map_eq_some_iff] at h
+  obtain ⟨e, hf, hd⟩ := h
+  exact ⟨e, List.mem_of_find?_eq_some hf, by simpa using List.find?_some hf, hd⟩
+
+theorem joins_cases {e : Edge δ} {a b : Nat} (h : Edge.joins e a b = true) :
+    (e.u = a ∧ e.v = b) ∨ (e.u = b ∧ e.v = a) := by
+  simpa [Edge.joins] using h
+
+/-- a stored transition state joins existing minima -/
+theorem edgeData_lt {s : Ktn δ} (hs : Inv s) {a b : Nat} {y : δ} (h : s.edgeData? a b = some y) :
+    a < s.nMin ∧ b < s.nMin := by
+  obtain ⟨e, he, hj, _⟩ := mem_of_edgeData h
+  obtain ⟨hu, hv⟩ := hs.2.2.2 e he
+  rcases joins_cases hj with ⟨rfl, rfl⟩ | ⟨rfl, rfl⟩
+  · exact ⟨hu, hv⟩
+  · exact ⟨hv, hu⟩
+
+theorem nodeData_exists {s : Ktn δ} (hs : Inv s) {a : Nat} (ha : a < s.nMin) :
+    ∃ x, s.nodeData? a = some x := by
+  have : a ∈ s.nodes.map (·.label) := by rw [hs.1]; simpa using ha
+  obtain ⟨nd, hnd, rfl⟩ := List.mem_map.1 this
+  exact ⟨nd.data, nodeData_of_mem hs hnd⟩
+
+/-- one edge per unordered pair: look-up by the end points of a stored edge finds that edge -/
+theorem find_joins {l : List (Edge δ)} (hp : l.Pairwise (fun a b => Edge.joins a b.u b.v = false))
+    {e : Edge δ} (he : e ∈ l) : l.find? (fun x => Edge.joins x e.u e.v) = some e := by
+  induction l with
+  | nil => simp at he
+  | cons a l ih =>
+    rw [List.pairwise_cons] at hp
+    rcases List.mem_cons.1 he with rfl | he'
+    · simp [Edge.joins]
+    · rw [List.find?_cons, hp.1 e he']
+      exact ih hp.2 he'
+
+theorem edgeData_of_mem {s : Ktn δ} (hs : Inv s) {e : Edge δ} (he : e ∈ s.edges) :
+    s.edgeData? e.u e.v = some e.data := by
+  simp [edgeData?, find_joins hs.2.2.1 he]
+
+/-! ### the gate: which payloads a gate operation can store -/
+
+theorem lookupOrInsert_fst (same : δ → δ → Bool) (s : Ktn δ) (d : δ) :
+    (lookupOrInsert same s d).1 = testNewMinimum same s d := by
+  unfold lookupOrInsert testNewMinimum
+  cases isNewMinimum same s d <;> rfl
+
+/-- after `test_new_minimum` the nodes are the old ones, or the old ones plus one node carrying
+    the offered payload -/
+theorem testNewMinimum_nodes {same : δ → δ → Bool} {s : Ktn δ} (hs : Inv s) (d : δ) :
+    (testNewMinimum same s d).nodes = s.nodes ∨
+      (testNewMinimum same s d).nodes = s.nodes ++ [⟨s.nMin, d⟩] := by
+  cases h : isNewMinimum same s d with
+  | some i => rw [testNewMinimum_of_some h]; exact Or.inl rfl
+  | none => rw [testNewMinimum_of_none h, addMin_eq hs]; exact Or.inr rfl
+
+theorem testNewMinimum_edges {same : δ → δ → Bool} {s : Ktn δ} (hs : Inv s) (d : δ) :
+    (testNewMinimum same s d).edges = s.edges := by
+  cases h : isNewMinimum same s d with
+  | some i => rw [testNewMinimum_of_some h]
+  | none => rw [testNewMinimum_of_none h, addMin_eq hs]
+
+theorem testNewMinimum_nodeData {same : δ → δ → Bool} {s : Ktn δ} (hs : Inv s) (d : δ) {a : Nat}
+    {x : δ} (h : (testNewMinimum same s d).nodeData? a = some x) :
+    s.nodeData? a = some x ∨ x = d := by
+  cases hn : isNewMinimum same s d with
+  | some i => rw [testNewMinimum_of_some hn] at h; exact Or.inl h
+  | none =>
+    rw [testNewMinimum_of_none hn] at h
+    obtain ⟨h1, h2⟩ := nodeData_addMin hs d
+    by_cases ha : a = s.nMin
+    · subst ha; rw [h1] at h; exact Or.inr (Option.some.inj h).symm
+    · rw [h2 a ha] at h; exact Or.inl h
+
+theorem testNewMinimum_nodeData_old {same : δ → δ → Bool} {s : Ktn δ} (hs : Inv s) (d : δ) {a : Nat}
+    (ha : a < s.nMin) : (testNewMinimum same s d).nodeData? a = s.nodeData? a := by
+  cases hn : isNewMinimum same s d with
+  | some i => rw [testNewMinimum_of_some hn]
+  | none =>
+    rw [testNewMinimum_of_none hn]
+    exact (nodeData_addMin hs d).2 a (Nat.ne_of_lt ha)
+
+theorem lookupOrInsert_nodeData {same : δ → δ → Bool} {s : Ktn δ} (hs : Inv s) (d : δ) {a : Nat}
+    {x : δ} (h : (lookupOrInsert same s d).1.nodeData? a = some x) :
+    s.nodeData? a = some x ∨ x = d := by
+  rw [lookupOrInsert_fst] at h
+  exact testNewMinimum_nodeData hs d h
+
+/-- a minimum stored after `test_new_ts` was stored before or is one of the two offered minima -/
+theorem testNewTs_nodeData {same : δ → δ → Bool} {c : Bool} {s : Ktn δ} (hs : GateInv same s)
+    (r : Rec δ) {a : Nat} {x : δ} (h : (testNewTs same c s r).nodeData? a = some x) :
+    s.nodeData? a = some x ∨ x = r.plus ∨ x = r.minus := by
+  unfold testNewTs at h
+  split at h
+  · simp only at h
+    rw [nodeData_congr (edgeData_addTs c _ r.ts _ _).2.2.1] at h
+    have hA := (lookupOrInsert_spec hs r.plus).1
+    rcases lookupOrInsert_nodeData hA.inv r.minus h with h' | rfl
+    · rcases lookupOrInsert_nodeData hs.inv r.plus h' with h'' | rfl
+      · exact Or.inl h''
+      · exact Or.inr (Or.inl rfl)
+    · exact Or.inr (Or.inr rfl)
+  · exact Or.inl h
+
+/-- a transition state stored after `test_new_ts` is an old one, on the same pair, whose two
+    minima are untouched; or it is the offered one and whatever is stored at its two ends
+    represents one of the two offered minima -/
+theorem testNewTs_edgeData {same : δ → δ → Bool} (hsym : ∀ x y, same x y = same y x) {s : Ktn δ}
+    (hs : GateInv same s) (r : Rec δ) {a b : Nat} {y : δ}
+    (h : (testNewTs same true s r).edgeData? a b = some y) :
+    (s.edgeData? a b = some y ∧
+      (∀ x, (testNewTs same true s r).nodeData? a = some x → s.nodeData? a = some x) ∧
+      (∀ x, (testNewTs same true s r).nodeData? b = some x → s.nodeData? b = some x)) ∨
+    (y = r.ts ∧
+      ∀ x, ((testNewTs same true s r).nodeData? a = some x ∨
+          (testNewTs same true s r).nodeData? b = some x) →
+        (x = r.plus ∨ same r.plus x = true) ∨ (x = r.minus ∨ same r.minus x = true)) := by
+  cases hnew : isNewTs same s r.ts with
+  | false =>
+    rw [testNewTs_repeat hnew] at h ⊢
+    exact Or.inl ⟨h, fun _ hx => hx, fun _ hx => hx⟩
+  | true =>
+    obtain ⟨ip, im, _, hmono, hrp, hrm, hnewe, hold, _⟩ := testNewTs_new_spec hsym hs r hnew
+    generalize testNewTs same true s r = s' at *
+    cases hj : Edge.joins (⟨a, b, r.ts⟩ : Edge δ) ip im with
+    | false =>
+      left
+      rw [hold a b hj] at h
+      obtain ⟨ha, hb⟩ := edgeData_lt hs.inv h
+      refine ⟨h, ?_, ?_⟩
+      · intro x hx
+        obtain ⟨x0, hx0⟩ := nodeData_exists hs.inv ha
+        have := nodeData_mono hmono.nodes hx0
+        rw [this] at hx
+        rw [hx0]; exact hx
+      · intro x hx
+        obtain ⟨x0, hx0⟩ := nodeData_exists hs.inv hb
+        have := nodeData_mono hmono.nodes hx0
+        rw [this] at hx
+        rw [hx0]; exact hx
+    | true =>
+      right
+      obtain ⟨xp, hxp, hp⟩ := hrp
+      obtain ⟨xm, hxm, hm⟩ := hrm
+      have hends : ∀ x, (s'.nodeData? ip = some x ∨ s'.nodeData? im = some x) →
+          (x = r.plus ∨ same r.plus x = true) ∨ (x = r.minus ∨ same r.minus x = true) := by
+        intro x hx
+        rcases hx with hx | hx
+        · rw [hxp] at hx; cases hx; exact Or.inl hp
+        · rw [hxm] at hx; cases hx; exact Or.inr hm
+      rcases joins_cases hj with ⟨h1, h2⟩ | ⟨h1, h2⟩
+      · simp only at h1 h2
+        subst h1 h2
+        rw [hnewe] at h
+        exact ⟨(Option.some.inj h).symm, hends⟩
+      · simp only at h1 h2
+        subst h1 h2
+        rw [edgeData?_comm, hnewe] at h
+        exact ⟨(Option.some.inj h).symm, fun x hx => hends x hx.symm⟩
+
+/-- `add_network`: the stored points are those after the two loops (the history does not matter) -/
+theorem addNetworkRecs_nodeData (same : δ → δ → Bool) (c : Bool) (s : Ktn δ) (mins : List δ)
+    (recs : List (Rec δ)) (hist : List (Nat × Nat)) (a : Nat) :
+    (addNetworkRecs same c s mins recs hist).nodeData? a =
+      (recs.foldl (testNewTs same c) (mins.foldl (testNewMinimum same) s)).nodeData? a := by
+  unfold addNetworkRecs
+  simp only [minimaLoop_fst]
+  rfl
+
+theorem addNetworkRecs_edgeData (same : δ → δ → Bool) (c : Bool) (s : Ktn δ) (mins : List δ)
+    (recs : List (Rec δ)) (hist : List (Nat × Nat)) (a b : Nat) :
+    (addNetworkRecs same c s mins recs hist).edgeData? a b =
+      (recs.foldl (testNewTs same c) (mins.foldl (testNewMinimum same) s)).edgeData? a b := by
+  unfold addNetworkRecs
+  simp only [minimaLoop_fst]
+  rfl
+
+/-! ### removal of one minimum -/
+
+/-- a minimum stored after `remove_minimum k` was stored before, under the label it is the
+    renaming of, with the same data -/
+theorem removeMin_nodeData (r : Bool) {s : Ktn δ} (hs : Inv s) (k : Nat) {a' : Nat} {x : δ}
+    (h : (s.removeMin r k).nodeData? a' = some x) :
+    ∃ a, a ≠ k ∧ shift k a = a' ∧ s.nodeData? a = some x := by
+  obtain ⟨nd', hm, hl, hd⟩ := mem_of_nodeData h
+  rw [removeMin_nodes r s hs k, List.mem_map] at hm
+  obtain ⟨nd, hnd, rfl⟩ := hm
+  rw [List.mem_filter] at hnd
+  refine ⟨nd.label, by simpa using hnd.2, hl, ?_⟩
+  rw [nodeData_of_mem hs hnd.1]
+  exact congrArg some hd
+
+/-- a transition state stored after `remove_minimum k` was stored before, between the two
+    minima its ends are the renamings of, with the same data -/
+theorem removeMin_edgeData (r : Bool) {s : Ktn δ} (hs : Inv s) (k : Nat) {a' b' : Nat} {y : δ}
+    (h : (s.removeMin r k).edgeData? a' b' = some y) :
+    ∃ a b, a ≠ k ∧ b ≠ k ∧ shift k a = a' ∧ shift k b = b' ∧ s.edgeData? a b = some y := by
+  obtain ⟨e', hm, hj, hd⟩ := mem_of_edgeData h
+  rw [removeMin_edges r s hs k, List.mem_map] at hm
+  obtain ⟨e, he, rfl⟩ := hm
+  rw [List.mem_filter] at he
+  obtain ⟨he, ht⟩ := he
+  have ht' : e.u ≠ k ∧ e.v ≠ k := by simpa [Edge.touches] using ht
+  have hed := edgeData_of_mem hs he
+  rcases joins_cases hj with ⟨h1, h2⟩ | ⟨h1, h2⟩
+  · exact ⟨e.u, e.v, ht'.1, ht'.2, h1, h2, by rw [hed]; exact congrArg some hd⟩
+  · exact ⟨e.v, e.u, ht'.2, ht'.1, h2, h1, by rw [edgeData?_comm, hed]; exact congrArg some hd⟩
+
+theorem gateInv_removeMin (r : Bool) {same : δ → δ → Bool} {s : Ktn δ} (hg : GateInv same s)
+    (k : Nat) (hk : k < s.nMin) : GateInv same (s.removeMin r k) := by
+  refine ⟨inv_removeMin r hg.inv k hk, ?_, ?_⟩
+  · unfold MinDistinct
+    rw [removeMin_nodes r s hg.inv k, List.pairwise_map]
+    exact hg.mins.sublist List.filter_sublist
+  · unfold TsDistinct
+    rw [removeMin_edges r s hg.inv k, List.pairwise_map]
+    exact hg.tss.sublist List.filter_sublist
+
+/-! ### generic preservation along the loops -/
+
+/-- whatever every valid `remove_minimum` preserves, the loop of `remove_minima` preserves
+    (same side conditions as `removeLoop_eq`) -/
+theorem removeLoop_preserves (r : Bool) (P : Ktn δ → Prop)
+    (hP : ∀ (s : Ktn δ) (k : Nat), P s → k < s.nMin → P (s.removeMin r k)) (l : List Nat) :
+    ∀ (s : Ktn δ) (c : Nat), P s → l.Pairwise (· < ·) → (∀ k ∈ l, c ≤ k ∧ k - c < s.nMin) →
+      P (removeLoop r s c l) := by
+  induction l with
+  | nil => intro s c hs _ _; exact hs
+  | cons k0 l ih =>
+    intro s c hs hp hb
+    rw [List.pairwise_cons] at hp
+    have hk0 := hb k0 (by simp)
+    have hb1 : ∀ k ∈ l, c + 1 ≤ k ∧ k - (c + 1) < (s.removeMin r (k0 - c)).nMin := by
+      intro k hk
+      have h1 := hp.1 k hk
+      have h2 := hb k (by simp [hk])
+      have : (s.removeMin r (k0 - c)).nMin = s.nMin - 1 := rfl
+      rw [this]; omega
+    exact ih _ _ (hP s _ hs hk0.2) hp.2 hb1
+
+theorem removeMinima_preserves (r : Bool) (P : Ktn δ → Prop)
+    (hP : ∀ (s : Ktn δ) (k : Nat), P s → k < s.nMin → P (s.removeMin r k)) (s : Ktn δ) (hs : P s)
+    (ks : List Nat) (hk : ∀ k ∈ ks, k < s.nMin) (hn : ks.Nodup) : P (s.removeMinima r ks) := by
+  have hperm : (sortNat ks).Perm ks := by rw [sortNat_eq]; exact List.perm_insertionSort _ _
+  have hsorted : (sortNat ks).Pairwise (· ≤ ·) := by
+    rw [sortNat_eq]; exact List.pairwise_insertionSort _ _
+  have hnd : (sortNat ks).Nodup := hperm.nodup_iff.2 hn
+  have hlt : (sortNat ks).Pairwise (· < ·) := by
+    have := hsorted.and hnd
+    refine this.imp ?_
+    intro a b h; omega
+  have hb : ∀ k ∈ sortNat ks, 0 ≤ k ∧ k - 0 < s.nMin := by
+    intro k hk'
+    exact ⟨Nat.zero_le _, by simpa using hk k (hperm.mem_iff.1 hk')⟩
+  exact removeLoop_preserves r P hP (sortNat ks) s 0 hs hlt hb
+
+theorem foldl_preserves {σ α : Type} (P : σ → Prop) (Q : α → Prop) (f : σ → α → σ)
+    (h : ∀ s a, P s → Q a → P (f s a)) :
+    ∀ (l : List α) (s : σ), P s → (∀ a ∈ l, Q a) → P (l.foldl f s) := by
+  intro l
+  induction l with
+  | nil => intro s hs _; exact hs
+  | cons a l ih =>
+    intro s hs hq
+    exact ih _ (h s a hs (hq a (by simp))) (fun b hb => hq b (by simp [hb]))
+
+/-- whatever every admissible valid operation preserves holds after every run -/
+theorem prun_preserves (same : δ → δ → Bool) (cfg : Ktn.Cfg) (P : Ktn δ → Prop)
+    (Q : POp δ → Prop)
+    (h : ∀ s op, P s → op.valid s = true → Q op → P (pstep same cfg s op)) :
+    ∀ (ops : List (POp δ)) (s t : Ktn δ), P s → (∀ op ∈ ops, Q op) →
+      prun same cfg s ops = some t → P t := by
+  intro ops
+  induction ops with
+  | nil => intro s t hs _ ht; simp [prun] at ht; exact ht ▸ hs
+  | cons op ops ih =>
+    intro s t hs hq ht
+    simp only [prun] at ht
+    split at ht
+    · rename_i hv
+      exact ih _ _ (h s op hs hv (hq op (by simp))) (fun o ho => hq o (by simp [ho])) ht
+    · exact absurd ht (by simp)
+
 end TopSearch.Pipeline
